@@ -209,7 +209,7 @@ fn sweep_scripts(id: &str) -> Vec<(&'static str, u64, u64, ScriptFn)> {
         "C18" => vec![("many-fresh-sessions", 24, 600, crate::scripts::fresh_sessions_script)],
         "C03" => vec![("ping-between-pieces", 300, 30_000, crate::scripts::ping_between_pieces_script), ("window-saturation", 500, 50_000, crate::scripts::saturation_script), ("wrap", 400, 40_000, wrap_script), ("disconnect-given-up-then-resume", 300, 30_000, crate::scripts::disconnect_given_up_script), ("release-on-a-full-arena", 300, 30_000, crate::scripts::release_on_a_full_arena_script), ("replay-blocked-by-a-smaller-limit", 300, 30_000, crate::scripts::replay_blocked_by_a_smaller_limit_script)],
         "C16" => vec![("wrap", 300, 30_000, wrap_script), ("window-saturation", 200, 20_000, crate::scripts::saturation_script), ("ping-between-pieces", 200, 20_000, crate::scripts::ping_between_pieces_script), ("release-on-a-full-arena", 200, 20_000, crate::scripts::release_on_a_full_arena_script), ("probe-due-on-a-full-send-buffer", 200, 20_000, crate::scripts::stalled_probe_script)],
-        "C01" => vec![("ping-between-pieces", 200, 20_000, crate::scripts::ping_between_pieces_script), ("wrap", 400, 40_000, wrap_script), ("disconnect-given-up-then-resume", 300, 30_000, crate::scripts::disconnect_given_up_script), ("disconnect-asked-again", 600, 60_000, crate::scripts::disconnect_asked_again_script), ("pingreq-cut-then-resume", 400, 40_000, crate::scripts::pingreq_cut_then_resume_script)],
+        "C01" => vec![("ping-between-pieces", 200, 20_000, crate::scripts::ping_between_pieces_script), ("wrap", 400, 40_000, wrap_script), ("disconnect-given-up-then-resume", 300, 30_000, crate::scripts::disconnect_given_up_script), ("disconnect-asked-again", 600, 60_000, crate::scripts::disconnect_asked_again_script), ("pingreq-cut-then-resume", 400, 40_000, crate::scripts::pingreq_cut_then_resume_script), ("arena-above-64k", 60, 6_000, crate::scripts::arena_above_64k_script)],
         "C11" => vec![("partial-then-disconnect", 300, 30_000, crate::scripts::c11_script)],
         "C12" => vec![("connect-at-the-edge-of-the-arena", 600, 60_000, crate::scripts::connect_at_the_edge_of_the_arena_script)],
         _ => vec![],
